@@ -3,7 +3,7 @@
 PLAN_ENTRY = {'stages': [
     {'name': 'frames',
      'mc': [{'module': 'MC_C19', 'cfg': {'quick': 'MC_C19_quick.cfg', 'thorough': 'MC_C19_thorough.cfg'}, 'workers': 4}],
-     'gens': ['gen_c19_random'],
+     'gens': ['gen_c19_random', 'gen_c19_plates'],
      'trace': 'Trace_Frames'}],
     'assumptions': [
         'TLC evaluates the integer operators of Frames.tla correctly (all products stay below 2^31; observed values are range-checked before use)',
@@ -184,4 +184,30 @@ def gen_c19_random(rnd, tier):
                'qs': [[rnd.randint(-4, 4), rnd.randint(-4, 4), rnd.randint(-4, 4) if dim == 3 else 0] for _q in range(2)]}
         rec.update(_motion_fields(rnd, dim))
         out.append(rec)
+    return out
+
+
+def gen_c19_plates(rnd, tier):
+    """exactly planar, nearly square plates (corners, centre, sometimes edge mid points) tilted by a Pythagorean angle about
+    a coordinate axis: the two in-plane spreads differ by a few percent and the third is exactly zero - the order of the
+    singular values and of the axes is what is judged"""
+    PY = [(3, 4, 5), (4, 3, 5), (5, 12, 13), (12, 5, 13), (8, 15, 17), (15, 8, 17), (7, 24, 25), (20, 21, 29)]
+    out = []
+    for _ in range(1500 if tier == 'quick' else 20000):
+        c, s_, h = rnd.choice(PY)
+        a = rnd.randint(8, 60)
+        b = a + rnd.randint(-2, 2)
+        ax = rnd.choice('xyz')
+        base = [(-a, -b), (a, -b), (a, b), (-a, b), (0, 0)]
+        if rnd.random() < 0.5:
+            base += [(a, 0), (-a, 0), (0, b), (0, -b)]
+        pts = []
+        for (x, y) in base:
+            p = (h * x, c * y, s_ * y)
+            if ax == 'y':
+                p = (p[1], p[0], p[2])
+            if ax == 'z':
+                p = (p[2], p[1], p[0])
+            pts.append([p[0], p[1], p[2]])
+        out.append({'m': 'frames', 'op': 'svdorder', 'sc': rnd.choice((0, -10, 4)), 'pts': pts})
     return out
